@@ -23,6 +23,9 @@ Spec = dict[str, Any]
 
 
 _SHARED: dict[int, Any] = {}
+# id(symbolic tensor parameter) -> (initialiser spec as *declared* in the recipe, the node): the
+# C17 oracle takes the declaration from here, never from the (mutable) initialiser object
+SPECS: dict[int, tuple[Spec, Any]] = {}
 
 
 def build_initializer(init: Spec, shape: tuple[int, ...]) -> Any:
@@ -105,14 +108,27 @@ def build_tensor_parameter(tp: Spec, shape: tuple[int, ...]) -> Any:
         v = const_value(tp["init"], shape)
         if isinstance(v, np.ndarray) and v.shape != shape:
             v = np.broadcast_to(v, shape).copy()
-        return ConstantParameter(*shape, value=v)
+        node = ConstantParameter(*shape, value=v)
+        SPECS[id(node)] = (tp["init"], node)
+        return node
     dtype = {"real": DataType.REAL, "complex": DataType.COMPLEX}[tp.get("dtype", "real")]
-    return TensorParameter(
+    node = TensorParameter(
         *shape,
         initializer=build_initializer(tp["init"], shape),
         learnable=bool(tp.get("learnable", True)),
         dtype=dtype,
     )
+    SPECS[id(node)] = (tp["init"], node)
+    return node
+
+
+def declared_initializer(sp: Any) -> Any | None:
+    """A fresh initialiser object built from the recipe's declaration for ``sp`` (None if ``sp``
+    does not come from a hand recipe)."""
+    ent = SPECS.get(id(sp))
+    if ent is None or ent[1] is not sp:
+        return None
+    return _build_initializer(ent[0], tuple(sp.shape))
 
 
 def build_parameter(ps: Spec, shape: tuple[int, ...]) -> Any:
@@ -147,6 +163,8 @@ def build_hand(r: Spec) -> Any:
 
     nv, k, K = r["nv"], r["k"], r["units"]
     _SHARED.clear()
+    if len(SPECS) > 4096:
+        SPECS.clear()
     layers: list[Any] = []
     in_layers: dict[Any, list[Any]] = {}
     tops: list[Any] = []
